@@ -475,6 +475,7 @@ class SimEnv:
         self.fault_cursor = 0
         self.solves = []
         self.model_cache = {}
+        self.solver_objects = {}
         self._saved = None
 
     # -- context management -------------------------------------------------------------------
@@ -534,19 +535,32 @@ class SimEnv:
         self.cbc_executable = cbc_executable
         self.faults = list(faults) if faults else [{"kind": "ok"}]
         self.fault_cursor = 0
-        if backend == "sim-api":
-            solver = SimSolver(self)
-        elif backend in ("cbc-wrapper", "real-cbc"):
-            solver = pulp.PULP_CBC_CMD(msg=False)
-            if solver.tmpDir != self.tmpdir:
-                raise HarnessError("PULP_CBC_CMD did not pick up the scratch TMPDIR")
-        elif backend == "highs-wrapper":
-            solver = pulp.HiGHS_CMD(msg=False)
-        elif backend == "none":
-            solver = None
-        else:
-            raise HarnessError("unknown backend %r" % backend)
+        # one solver object per back-end for the whole run: like the process-global default solver of a
+        # real process, it is reused from one conversion to the next, so state the code under test leaves
+        # on it (it sets .msg) travels along
+        if backend == "none":
+            return None
+        key = "cbc" if backend in ("cbc-wrapper", "real-cbc") else backend
+        solver = self.solver_objects.get(key)
+        if solver is None:
+            if backend == "sim-api":
+                solver = SimSolver(self)
+            elif key == "cbc":
+                solver = pulp.PULP_CBC_CMD(msg=False)
+                if solver.tmpDir != self.tmpdir:
+                    raise HarnessError("PULP_CBC_CMD did not pick up the scratch TMPDIR")
+            elif backend == "highs-wrapper":
+                solver = pulp.HiGHS_CMD(msg=False)
+            else:
+                raise HarnessError("unknown backend %r" % backend)
+            self.solver_objects[key] = solver
         return solver
+
+    def decoy_solver(self):
+        """The persistent API-level stub, for the slot that should *not* be consulted in a step."""
+        if "sim-api" not in self.solver_objects:
+            self.solver_objects["sim-api"] = SimSolver(self)
+        return self.solver_objects["sim-api"]
 
     def set_default(self, solver):
         pulp.LpSolverDefault = solver
